@@ -283,8 +283,10 @@ COLORS = ['NONE', 'RED', 'GREEN', 'BLUE', 'YELLOW']
 def rand_obj(r, depth=0):
     c = r.choice(['NoneGridObject', 'Hidden', 'Floor', 'Floor', 'Floor', 'Wall', 'Exit', 'Door', 'Key',
                   'MovingObstacle', 'Box', 'Telepod', 'Beacon'])
-    if depth > 1 and c == 'Box':
+    if depth > 2 and c == 'Box':
         c = 'Floor'
+    if depth in (1, 2) and c != 'Box' and r.random() < 0.25:
+        c = 'Box'          # nested boxes are rare otherwise
     return rand_obj_of(r, c, depth)
 
 
@@ -555,10 +557,19 @@ def run_contract(spec, inputs_json, only=None):
     out = {'contract': spec.name, 'pre_ok': True, 'exception': None, 'clauses': [], 'rng_deviated': False}
     if spec.kind == 'lemma':
         st.phase = 'post'
+        lpatches = []
+        lstubs = spec.opts.get('stubs', {})
+        if isinstance(lstubs, (list, tuple)):
+            lstubs = {s_: None for s_ in lstubs}
+        for sname, ret in lstubs.items():
+            lpatches.extend(install_stub(st, sname, ret, inputs_json))
         try:
             spec.fn(**byname)
         except Exception as e:
             out['contract_error'] = f'{type(e).__name__}: {e}'
+        finally:
+            for owner, attr, orig in lpatches:
+                setattr(owner, attr, orig)
         out['clauses'] = st.clauses
         return out
     st.phase = 'pre'
@@ -760,6 +771,41 @@ def correlate(inputs, spec, r):
             inputs['position'] = {'Position': [h - 1, r.randint(0, w - 1)]}
 
 
+FRONT = {'FORWARD': (-1, 0), 'BACKWARD': (1, 0), 'LEFT': (0, -1), 'RIGHT': (0, 1)}
+
+
+def correlate_front(inputs, spec, r):
+    """(state, action) inputs: half of the time something worth acting on is put in front of the agent (doors of
+    every status, keys, boxes and boxes inside boxes, telepods ...) and the action is one that acts on it"""
+    st = inputs.get('state')
+    if not (isinstance(st, dict) and 'State' in st and 'action' in inputs and r.random() < 0.5):
+        return
+    try:
+        grid = st['State']['grid']['Grid']
+        ag = st['State']['agent']['Agent']
+        y, x = ag['position']['Position']
+        dy, dx = FRONT[ag['orientation']['name']]
+    except (KeyError, TypeError):
+        return
+    h, w = len(grid), len(grid[0])
+    fy, fx = y + dy, x + dx
+    if not (0 <= y < h and 0 <= x < w and 0 <= fy < h and 0 <= fx < w):
+        return
+    kind = r.choice(['Box', 'Box', 'Box2', 'Box3', 'Door', 'Door', 'Key', 'Telepod', 'MovingObstacle', 'Floor', 'Exit', 'Beacon'])
+    if kind in ('Box2', 'Box3'):
+        inner = rand_obj_of(r, r.choice(['Key', 'Floor', 'Door', 'Wall']), 3)
+        for _ in range(2 if kind == 'Box2' else 3):
+            inner = {'cls': 'Box', 'content': inner}
+        obj = inner
+    else:
+        obj = rand_obj_of(r, kind, 0)
+    grid[fy][fx] = obj
+    if isinstance(inputs['action'], dict) and 'enum' in inputs['action'] and r.random() < 0.7:
+        inputs['action'] = {'enum': 'Action', 'name': r.choice(['ACTUATE', 'ACTUATE', 'PICK_N_DROP', 'MOVE_FORWARD'])}
+    if obj['cls'] == 'Door' and r.random() < 0.5:
+        ag['grid_object'] = {'cls': 'Key', 'color': r.choice([obj['color'], r.choice(COLORS)])}
+
+
 def cmd_rerun(path):
     """run the target once on the given inputs and print a canonical repr of the outcome"""
     with open(path) as f:
@@ -845,6 +891,7 @@ def cmd_crosscheck(module, n, seed, names):
             inputs = {p: rand_input(s, r) for p, s in spec.args.items()}
             correlate(inputs, spec, r)
             correlate_step(inputs, spec, r)
+            correlate_front(inputs, spec, r)
             res = run_contract(spec, inputs)
             stats['runs'] += 1
             if res.get('contract_error'):
